@@ -40,6 +40,11 @@ def norm(node):
     return ast.unparse(node)
 
 
+def flat(node):
+    """normalised text with indentation removed (one statement per line)"""
+    return '\n'.join(l.strip() for l in norm(node).splitlines())
+
+
 def set_parents(tree):
     for p in ast.walk(tree):
         for ch in ast.iter_child_nodes(p):
